@@ -5,5 +5,6 @@ DOC = {'explanation': 'C12 structural clauses (see DESIGN.md section 5)', 'decid
 
 def rules(ctx):
     S.c12_db_rules(ctx)
+    S.c12_tree_rules(ctx)
     S.c11_rules(ctx)
     S.c01_r8_open_recovery(ctx)
